@@ -113,7 +113,7 @@ def check_field_constants(build):
             guard('QUADRATIC_NON_RESIDUE_TO_TRACE', qnr)
         guard('FIELD_SIZE_POWER_OF_TWO', lambda: G.check(f'{F}::FIELD_SIZE_POWER_OF_TWO = 2^(8*{NBYTES[F]}) mod p', z3.IntVal(val(get('FIELD_SIZE_POWER_OF_TWO'))) == z3.IntVal(2 ** (8 * NBYTES[F])) % p))
         # wrapper constants of both wrappers that are compiled in this build
-        for w in (('u32', 'u64') if build == 'ark' else ('u32',)):
+        for w in (('u64',) if build == 'ark' else ('u32',)):   # the wrapper that is observable in this build
             def wget(name): return get(name, rf'^fields::{f}::{w}::wrapper::<impl at [^>]*>::{name}$')
             guard(f'{w} ONE', lambda: G.eq(f'{F} ({w} wrapper) ONE', val(wget('ONE')), 1))
             guard(f'{w} ZERO', lambda: G.eq(f'{F} ({w} wrapper) ZERO', val(wget('ZERO')), 0))
